@@ -27,6 +27,7 @@ RULE = ('Seeded tables of up to 12 rows x 5 fields (duplicate keys, nulls, missi
         'with dataParseCSV from one or several text arguments in 4 fixed-offset zones; date-like invalid text stays a string. Non-trivial: >= 2 '
         'rows share a key and >= 1 null or punctuation-bearing key (tables); a column with nulls or quoted cells (CSV). Distinct by table + call.')
 RULE += ' Also: calculated-field expressions without a field reference that have an effect or build a container (evaluated once per row, own container per row); script globals and variables named like a row field; records shorter than the header; date-like cells with non-ASCII digits.'
+RULE += ' Round 7: aggregation measures published under names of their own (the empty string included) for either measure; CSV string cells that differ from null / true / false only by blanks or letter case.'
 ASSUMPTIONS = ['what happens to left rows without a match is not asserted (the suite pins behaviour opposite to the documentation): kept alone or dropped',
                'the order of groups in dataTop/dataAggregate output is not asserted, only membership and per-group order',
                'CSV writer preconditions: null is written "null"; an empty cell stands for null only in number/boolean/datetime columns that have '
